@@ -424,8 +424,98 @@ def run_workers_case(case):
             'stats': stats, 'violations': violations, 'sample': sample}
 
 
+def several_slots_one_process(case):
+    """one process holds several slots of a PreemptiveResource through nested `with` blocks; it
+    loses one of them to an urgent request and leaves all its blocks by that Interrupt: every
+    slot it held is free again - somebody who needs all of them gets them"""
+    import contextlib
+    rng = random.Random('%s/%s/c19-nested' % (case['seed'], case['index']))
+    capacity = rng.choice([2, 2, 3, 4])
+    held = rng.randint(2, capacity)
+    together = rng.random() < 0.5        # requested in one time step / one after the other
+    catches = rng.choice(['outside', 'outside', 'inside-reraise'])
+    log = []
+    sess = Session(budget_per_step=20000, budget_total=400000)
+
+    def runner():
+        env = usimpy.Environment()
+        res = PreemptiveResource(env, capacity=capacity)
+
+        def holder():
+            try:
+                with contextlib.ExitStack() as stack:
+                    requests = []
+                    for number in range(held):
+                        requests.append(stack.enter_context(res.request(priority=5)))
+                        if not together:
+                            yield requests[-1]
+                            yield env.timeout(0.25)
+                    if together:
+                        yield env.all_of(requests)
+                    log.append(('holder holds', res.count, env.now))
+                    try:
+                        yield env.timeout(100)
+                    except UsimInterrupt:
+                        if catches != 'inside-reraise':
+                            raise
+                        log.append(('holder notices', env.now))
+                        raise
+            except UsimInterrupt as interrupt:
+                log.append(('holder preempted', isinstance(interrupt.cause, Preempted), env.now))
+
+        def urgent():
+            yield env.timeout(5)
+            with res.request(priority=0) as request:
+                yield request
+                log.append(('urgent got a slot', env.now))
+                yield env.timeout(1)
+            log.append(('urgent done', res.count, env.now))
+
+        def late():
+            yield env.timeout(10)
+            requests = [res.request(priority=9) for _ in range(capacity)]
+            yield env.all_of(requests)
+            log.append(('late got all slots', res.count, env.now))
+            for request in requests:
+                res.release(request)
+
+        for process in (holder, urgent, late):
+            env.process(process())
+        env.run(until=50)
+        log.append(('in use at the end', res.count))
+    outcome = sess.run(runner=runner)
+    at = 0 if together else 0.25 * held
+    want = [('holder holds', held, at)]
+    if held == capacity:
+        want += ([('holder notices', 5)] if catches == 'inside-reraise' else []) + [
+            ('holder preempted', True, 5), ('urgent got a slot', 5), ('urgent done', 0, 6)]
+    else:
+        want += [('urgent got a slot', 5), ('urgent done', held, 6)]
+    violations = [dict(v) for v in sess.violations if v['mechanism'].startswith('kernel-')]
+    what = 'a process holding %d of %d slots through nested with-blocks (%s)' % (
+        held, capacity, 'requested together' if together else 'one after the other')
+    if outcome[0] != 'ok':
+        violations.append({'mechanism': 'c19:run-failed',
+                           'msg': '%s: ended with %r' % (what, outcome[1])})
+    elif held == capacity and log != want + [('late got all slots', capacity, 10),
+                                             ('in use at the end', 0)]:
+        violations.append({'mechanism': 'c19:state-differs:granted',
+                           'msg': '%s and preempted by an urgent request: log %s, expected %s '
+                                  'followed by a late user getting all slots at 10 and nothing '
+                                  'in use at the end' % (what, log, want)})
+    elif held < capacity and log[:3] != want:
+        violations.append({'mechanism': 'c19:state-differs:granted',
+                           'msg': '%s: log %s, expected to begin with %s' % (what, log, want)})
+    for vio in violations:
+        vio['case'] = dict(case)
+    return {'evals': 1, 'sigs': [sess.signature()], 'violations': violations, 'sample': None,
+            'stats': {'several_slots_one_process': 1, 'activations': sess.n}}
+
+
 def run_case(case):
     kind = case['kind']
+    if case['index'] % 30 == 17:
+        return several_slots_one_process(case)
     if kind == 'workers':
         return run_workers_case(case)
     capacity = float('inf') if case['capacity'] == 'inf' else case['capacity']
